@@ -172,3 +172,35 @@ Theorem C05_test_false_positives :
                     | None => false end) EXHAUST = true.
 Proof. exact C05_Examples.test_false_positives. Qed.
 Print Assumptions C05_test_false_positives.
+
+(* ---------- the generated table EXHAUST is all of S4 ---------- *)
+From RP Require Proofs.C05_Exhaust.
+
+(* EXHAUST (read from the Rust source by the translator) is used throughout C05/C06/C07 as "every
+   relabeling of the four suits": a list p is a permutation of the suits 0..3 (is_perm4: length
+   four and each of 0, 1, 2, 3 occurs) exactly when it is a row of the table *)
+Theorem C05_exhaust_is_S4 : forall p, is_perm4 p = true <-> In p EXHAUST.
+Proof. exact C05_Exhaust.exhaust_is_S4. Qed.
+Print Assumptions C05_exhaust_is_S4.
+
+(* 24 rows, no row twice *)
+Theorem C05_exhaust_24 : length EXHAUST = 24%nat /\ NoDup EXHAUST /\ Forall (fun p => is_perm4 p = true) EXHAUST.
+Proof.
+  exact (conj C05_Exhaust.exhaust_length24 (conj C05_Exhaust.exhaust_nodup
+          (proj2 (Forall_forall _ _) C05_Exhaust.exhaust_sound))).
+Qed.
+Print Assumptions C05_exhaust_24.
+
+(* completeness without is_perm4: every duplicate-free list of four suits below 4 is a row *)
+Theorem C05_exhaust_complete : forall p, length p = 4%nat -> Forall (fun s => s < 4) p -> NoDup p ->
+  In p EXHAUST.
+Proof. exact C05_Exhaust.exhaust_complete_nodup. Qed.
+Print Assumptions C05_exhaust_complete.
+Example C05_exhaust_complete_hyp :
+  length [2; 0; 3; 1] = 4%nat /\ Forall (fun s => s < 4) [2; 0; 3; 1] /\ NoDup [2; 0; 3; 1] /\
+  is_perm4 [2; 0; 3; 1] = true.
+Proof.
+  split; [reflexivity|]. split; [repeat constructor|]. split; [|reflexivity].
+  repeat (constructor; [cbn [In]; intros H; repeat (destruct H as [H|H]; [discriminate H|]); exact H|]).
+  constructor.
+Qed.
